@@ -455,6 +455,16 @@ def tidy_items(v):
         v2 = v.replace(lambda x: fn(x) in ("getitem", "item") and isinstance(x.args[0], sp.Tuple) and getattr(x.args[1], "is_Integer", False)
                        and -len(x.args[0]) <= int(x.args[1]) < len(x.args[0]), lambda x: x.args[0][int(x.args[1])])
         v2 = v2.replace(lambda x: fn(x) in ("tuple", "list") and len(x.args) == 1 and isinstance(x.args[0], sp.Tuple), lambda x: x.args[0])
+
+        def spread(x):
+            out = []
+            for a in x.args:
+                if fn(a) == "splat" and len(a.args) == 1 and isinstance(a.args[0], sp.Tuple):
+                    out.extend(a.args[0])
+                else:
+                    out.append(a)
+            return x.func(*out)
+        v2 = v2.replace(lambda x: isinstance(x, sp.Function) and any(fn(a) == "splat" and len(a.args) == 1 and isinstance(a.args[0], sp.Tuple) for a in x.args), spread)
         if v2 == v:
             break
         v = v2
@@ -894,6 +904,10 @@ def seq_form(v):
         def step(x):
             if fn(x) in ("list", "tuple", "array", "asarray") and len(x.args) >= 1 and fn(x.args[0]) == "SEQ":
                 return x.args[0]
+            if fn(x) in ("stack", "vstack", "row_stack") and len(x.args) >= 1 and fn(x.args[0]) == "SEQ" and (len(x.args) == 1 or x.args[1] == 0 or x.args[1] == sp.Function("kw_axis")(sp.Integer(0))):
+                return x.args[0]            # rows stacked along the first axis: the sequence of rows
+            if fn(x) == "astype" and len(x.args) >= 2 and fn(x.args[0]) == "SEQ" and str(x.args[1]) in ("float", "np.float64", "np.double"):
+                return x.args[0]
             if fn(x) == "reshape" and len(x.args) == 3 and fn(x.args[0]) == "SEQ" and fn(x.args[1]) == "len" \
                     and x.args[1].args[0] in (x.args[0], x.args[0].args[1]):
                 return x.args[0]            # n rows reshaped to (n, <row length>): the same rows
@@ -914,7 +928,7 @@ def seq_form(v):
             if fn(x) in ("item", "getitem") and isinstance(x.args[0], sp.Tuple) and x.args[1].is_Integer and 0 <= int(x.args[1]) < len(x.args[0]):
                 return x.args[0][int(x.args[1])]
             return x
-        v = v.replace(lambda x: fn(x) in ("list", "tuple", "array", "asarray", "comp", "SEQ", "getitem", "item", "reshape"), step)
+        v = v.replace(lambda x: fn(x) in ("list", "tuple", "array", "asarray", "comp", "SEQ", "getitem", "item", "reshape", "stack", "vstack", "row_stack", "astype"), step)
         if v == before:
             break
     # `item` (element of a loop / comprehension target) and `getitem` (subscript) are the same selection
